@@ -6,7 +6,7 @@
   in keys; absent pair = 0 : 0; `IsCW v w` = `w` is a candidate and `d w o > d o w` for every other
   candidate `o`.
 -/
-import VotelibProofs.Lemmas.Ranked
+import VotelibProofs.Lemmas.Kemeny
 import VotelibModel.CondorcetRanked
 namespace VL.C05
 open VL VL.Condorcet
@@ -108,6 +108,40 @@ theorem cw_tideman {p : Profile} (hwf : WF (rankedToCondorcet p)) {w : Cand} (hw
   rw [htier]
   simp only
   rw [if_pos (List.contains_iff_mem.2 (candidates_rankedToCondorcet_sub p hw.1))]
+
+/-- **Kemeny-Young follows its defining computation**: whenever it answers, the places are the head of the
+    order of all candidates whose score (number of voter preferences the order satisfies) strictly exceeds
+    that of every other order. -/
+theorem kemeny_is_argmax {v : Pairwise} {n : Nat} {r : List Slot} (h : kemenyYoung v n = .ok r) :
+    ∃ best, best.Perm (candidates v) ∧ r = (best.take n).map Slot.cand ∧
+      ∀ q, q.Perm (candidates v) → q ≠ best → kyScore v q < kyScore v best := kemenyYoung_ok h
+
+/-- the only refusal of Kemeny-Young is the declared NotImplementedError -/
+theorem kemeny_refusal {v : Pairwise} {n : Nat} {e : Err} (h : kemenyYoung v n = .error e) : e = .notImplemented := by
+  rw [kemenyYoung_eq] at h
+  split at h
+  · simp at h
+  · simp only [Except.error.injEq] at h; exact h.symm
+
+/-- **Kemeny-Young, Condorcet winner (partial).**  Full statement `cw_kemeny : kemenyYoung v 1 = .ok [cand w]`
+    is false of the current code (`cw_kemeny_witness`).  Proved: it either elects exactly the Condorcet winner
+    or refuses with NotImplementedError — it never elects anybody else.  (The refusal happens exactly when
+    the best order is not unique; moving `w` to the front of an order strictly raises its score, so every
+    best order starts with `w`.) -/
+theorem cw_kemeny_partial {v : Pairwise} (hwf : WF v) {w : Cand} (hw : IsCW v w) :
+    kemenyYoung v 1 = .ok [Slot.cand w] ∨ kemenyYoung v 1 = .error .notImplemented := by
+  cases h : kemenyYoung v 1 with
+  | error e => right; rw [kemeny_refusal h]
+  | ok r =>
+    left
+    obtain ⟨best, hp, hr, hbest⟩ := kemenyYoung_ok h
+    have hh := kemeny_best_head hwf hw hp hbest
+    cases best with
+    | nil => simp at hh
+    | cons a rest =>
+      simp only [List.head?_cons, Option.some.injEq] at hh
+      subst hh
+      rw [hr]; rfl
 
 /-! ### Smith efficiency -/
 
